@@ -14,8 +14,10 @@ VARIABLES l, input, k
 Trace == ndJsonDeserialize("trace.ndjson")
 F(ok, name) == IF ok THEN "" ELSE name \o "; "
 
+\* the symbols an instance has from its construction (none for the generic state): list of <<symbol, type>>
+Preset(ps) == [s \in {ps[i][1] : i \in 1 .. Len(ps)} |-> ps[CHOOSE i \in 1 .. Len(ps) : ps[i][1] = s][2]]
 Apply(e) ==
-  CASE e.op = "new"  -> syms' = <<>> /\ input' = <<>> /\ k' = 0
+  CASE e.op = "new"  -> syms' = (IF "preset" \in DOMAIN e THEN Preset(e.preset) ELSE <<>>) /\ input' = <<>> /\ k' = 0
     [] e.op = "add"  -> Add(e.sym, e.type) /\ UNCHANGED <<input, k>>
     [] e.op = "scan" -> input' = e.input /\ k' = 0 /\ UNCHANGED syms
     [] e.op = "next" -> \* continue from the OBSERVED cursor, so that one bad token does not
